@@ -64,6 +64,10 @@ pub(crate) fn bbox_write_z_range_to<PointType: HasZ, W: Write>(
     Ok(())
 }
 
+/// Upper bound of the number of elements allocated before any of them has been read:
+/// the counts come from the file and the data may not be there.
+pub(crate) const MAX_PREALLOCATION: usize = 1024;
+
 /// Converts a count read from a file, which cannot be negative
 pub(crate) fn checked_count(count: i32) -> Result<usize, std::io::Error> {
     usize::try_from(count).map_err(|_| {
@@ -83,7 +87,7 @@ where
     T: Read,
 {
     let num_points = checked_count(num_points)?;
-    let mut points = Vec::<PointType>::with_capacity(num_points);
+    let mut points = Vec::<PointType>::with_capacity(num_points.min(MAX_PREALLOCATION));
     for _ in 0..num_points {
         let mut p = PointType::default();
         *p.x_mut() = source.read_f64::<LittleEndian>()?;
@@ -118,7 +122,7 @@ pub(crate) fn read_parts<T: Read>(
     num_parts: i32,
 ) -> Result<Vec<i32>, std::io::Error> {
     let num_parts = checked_count(num_parts)?;
-    let mut parts = Vec::<i32>::with_capacity(num_parts);
+    let mut parts = Vec::<i32>::with_capacity(num_parts.min(MAX_PREALLOCATION));
     for _ in 0..num_parts {
         parts.push(source.read_i32::<LittleEndian>()?);
     }
@@ -225,7 +229,7 @@ impl<'a, PointType: Default + HasMutXY, R: Read> MultiPartShapeReader<'a, PointT
             }
             previous = start;
         }
-        let parts = Vec::<Vec<PointType>>::with_capacity(parts_array.len());
+        let parts = Vec::<Vec<PointType>>::with_capacity(parts_array.len().min(MAX_PREALLOCATION));
         Ok(Self {
             num_points,
             num_parts,
